@@ -103,13 +103,53 @@ func runCase(c Case) (res pbt.Result) {
 	known := map[int]bool{}  // providers a completed refresh (or miss-fetch) made visible
 	absent := map[int]bool{} // providers remembered as absent
 	sawNeg, sawFail := false, false
+	served := map[int]map[string]bool{} // provider -> version tags ever set for it
+	type heldRec struct {
+		pi                *model.ProviderInfo
+		id                peer.ID
+		tag, when, addr   string
+		step              int
+	}
+	var held []heldRec
+	// checkRecord: the record belongs to the provider asked for, is one of the records served for it, is not a
+	// mixture of two records; it is then held, and must never change afterwards (it was handed to a caller)
+	checkRecord := func(i, p int, pi *model.ProviderInfo) string {
+		if pi.AddrInfo.ID != gen.Keys()[p].ID {
+			return fmt.Sprintf("step %d: Get(provider %d) returned the record of another provider (%s)", i, p, pi.AddrInfo.ID)
+		}
+		if !served[p][pi.LastError] {
+			return fmt.Sprintf("step %d: Get(provider %d) returned a record tagged %q, which no endpoint ever served for it", i, p, pi.LastError)
+		}
+		var v int
+		_, _ = fmt.Sscanf(pi.LastError, "v%d", &v)
+		if len(pi.AddrInfo.Addrs) != 1 || !strings.HasSuffix(pi.AddrInfo.Addrs[0].String(), fmt.Sprintf("/tcp/%d", 1000+v)) {
+			return fmt.Sprintf("step %d: Get(provider %d) returned a mixture of records: tag %s with addresses %v", i, p, pi.LastError, pi.AddrInfo.Addrs)
+		}
+		held = append(held, heldRec{pi: pi, id: pi.AddrInfo.ID, tag: pi.LastError, when: pi.LastAdvertisementTime, addr: pi.AddrInfo.Addrs[0].String(), step: i})
+		return ""
+	}
+	checkHeld := func(i int) string {
+		for _, h := range held {
+			if h.pi.AddrInfo.ID != h.id || h.pi.LastError != h.tag || h.pi.LastAdvertisementTime != h.when || len(h.pi.AddrInfo.Addrs) != 1 || h.pi.AddrInfo.Addrs[0].String() != h.addr {
+				return fmt.Sprintf("step %d: the record that Get returned at step %d (provider %s, tag %s) has changed since (now provider %s, tag %s): records handed to callers are modified in place", i, h.step, h.id, h.tag, h.pi.AddrInfo.ID, h.pi.LastError)
+			}
+		}
+		return ""
+	}
 	for i, s := range c.Steps {
+		if msg := checkHeld(i); msg != "" {
+			return pbt.Failf("%s", msg)
+		}
 		switch s.Op {
 		case "set":
 			ver++
 			eps[s.Src].mu.Lock()
 			eps[s.Src].content[s.Pid] = [2]int{ver, s.T}
 			eps[s.Src].mu.Unlock()
+			if served[s.Pid] == nil {
+				served[s.Pid] = map[string]bool{}
+			}
+			served[s.Pid][fmt.Sprintf("v%d", ver)] = true
 		case "del":
 			eps[s.Src].mu.Lock()
 			delete(eps[s.Src].content, s.Pid)
@@ -147,6 +187,9 @@ func runCase(c Case) (res pbt.Result) {
 				pi, err := pc.Get(ctx, gen.Keys()[p].ID)
 				if err != nil || pi == nil {
 					return pbt.Failf("step %d: provider %d is reported by a responding HTTP source but Get returns %v, %v", i, p, pi, err)
+				}
+				if msg := checkRecord(i, p, pi); msg != "" {
+					return pbt.Failf("%s", msg)
 				}
 				want := base.Add(time.Duration(b[1]) * time.Second).Format(time.RFC3339)
 				if !known[p] && pi.LastAdvertisementTime < want {
@@ -188,8 +231,14 @@ func runCase(c Case) (res pbt.Result) {
 			}
 			if pi != nil {
 				known[s.Pid] = true
+				if msg := checkRecord(i, s.Pid, pi); msg != "" {
+					return pbt.Failf("%s", msg)
+				}
 			}
 		}
+	}
+	if msg := checkHeld(len(c.Steps)); msg != "" {
+		return pbt.Failf("%s", msg)
 	}
 	res.NonTrivial = sawNeg || (sawFail && c.NSrc > 1)
 	return res
@@ -197,7 +246,7 @@ func runCase(c Case) (res pbt.Result) {
 
 func TestC06_HTTPSource(t *testing.T) {
 	pbt.Run(t, pbt.Config{Prop: "C06", Unit: "TestC06_HTTPSource",
-		Rule: "the provider cache over its real HTTP source against 1..2 loopback provider endpoints (/providers, /providers/<id>) whose content changes; steps: set / delete a provider at an endpoint, make an endpoint answer its next request with 500/503/404/400, Refresh, Get; oracle (coarser than TestC06_Model, no clock): after a Refresh every provider reported by a responding endpoint is returned with a record at least as fresh as the freshest reported; a provider no endpoint knows is remembered as absent: repeated Gets make no further /providers/<id> request. Non-trivial: a remembered-absent hit, or an injected failure with two endpoints; distinct by case.",
+		Rule: "the provider cache over its real HTTP source against 1..2 loopback provider endpoints (/providers, /providers/<id>) whose content changes; steps: set / delete a provider at an endpoint, make an endpoint answer its next request with 500/503/404/400, Refresh, Get; oracle (coarser than TestC06_Model, no clock): after a Refresh every provider reported by a responding endpoint is returned with a record at least as fresh as the freshest reported; every record returned belongs to the provider asked for, is one the endpoints served for it and is not a mixture of two; a record once returned to a caller never changes afterwards (the listing order of the endpoints changes from request to request); a provider no endpoint knows is remembered as absent: repeated Gets make no further /providers/<id> request. Non-trivial: a remembered-absent hit, or an injected failure with two endpoints; distinct by case.",
 	}, func(t *rapid.T) Case {
 		c := Case{NSrc: rapid.IntRange(1, 2).Draw(t, "nsrc")}
 		n := rapid.IntRange(3, 25).Draw(t, "n")
